@@ -10,10 +10,11 @@ ID = "C13"
 MEM = [
     {"mem_type": "RAM", "beginning": 0x0, "end": 0x40},
     {"mem_type": "RAM", "beginning": 0x1000, "end": 0x1040},
+    {"mem_type": "RAM", "beginning": 0x1080, "end": 0x10C0},          # a second device in the same 4 KB page
     {"mem_type": "RAM", "beginning": 0x2000, "end": 0x2040},          # code
     {"mem_type": "RAM", "beginning": 0xFFFFFFC0, "end": 0x100000000},
 ]
-BASES = [0x1010, 0x1038, 0xFFFFFFF8, 0x0]
+BASES = [0x1010, 0x1038, 0xFFFFFFF8, 0x0, 0x1090]
 DATA = {1: [0x01, 0x80, 0xFF], 2: [0x0102, 0x80FF, 0xFFFF], 4: [0x01020304, 0x80FF7F01, 0xFFFFFFFF],
         8: [0x0102030405060708, 0x80FF7F01A1B2C3D4, 0xFFFFFFFFFFFFFFFF]}
 ACCESSORS = ["mem_a", "mem_u", "mem_u_unpriv"]
